@@ -1011,7 +1011,7 @@ class WorkflowConductor(object):
                     task_state_entry["next"][task_transition_id] = all(evaluated_criteria)
                 except Exception as e:
                     self.log_error(e, task_id, route, task_transition_id)
-                    self.request_workflow_status(statuses.FAILED)
+                    self._fail_workflow_on_task_transition_error()
                     continue
 
                 # If criteria met, then mark the next task staged and calculate outgoing context.
@@ -1027,7 +1027,7 @@ class WorkflowConductor(object):
 
                     if errors:
                         self.log_errors(errors, task_id, route, task_transition_id)
-                        self.request_workflow_status(statuses.FAILED)
+                        self._fail_workflow_on_task_transition_error()
                         continue
 
                     out_ctx_idxs = json_util.deepcopy(task_state_entry["ctxs"]["in"])
@@ -1130,6 +1130,13 @@ class WorkflowConductor(object):
             task_state_entry["term"] = True
 
         return task_state_entry
+
+    def _fail_workflow_on_task_transition_error(self):
+        # The task may complete when the workflow is already completed, i.e. a pending task
+        # that is answered after the workflow is canceled. The error is logged but a completed
+        # workflow stays as is; requesting it to fail would be rejected by the state machine.
+        if self.get_workflow_status() not in statuses.COMPLETED_STATUSES:
+            self.request_workflow_status(statuses.FAILED)
 
     def _evaluate_route(self, task_transition, prev_route):
         task_id = task_transition[1]
